@@ -6,7 +6,7 @@ use crate::ast::{DatePattern, DateToken};
 use crate::loader::Context;
 use crate::types::{BaseUnit, BigInt, BigRat, Dimensionality, GenericDateTime, Number, Numeric};
 use chrono::format::Parsed;
-use chrono::{DateTime, Duration, FixedOffset, Local, TimeZone, Weekday};
+use chrono::{DateTime, Datelike, Duration, FixedOffset, Local, TimeZone, Weekday};
 use chrono_tz::Tz;
 use std::iter::Peekable;
 use std::str::FromStr;
@@ -366,8 +366,41 @@ fn attempt(
         res
     };
     res.map_err(|e| (e, count))?;
+    // Fill in what a pattern leaves open, and tell fields that were not
+    // given from fields that do not make sense: the former default to
+    // the current date or midnight, the latter are an error rather than
+    // being dropped.
+    if parsed.isoweek.is_some() {
+        if parsed.isoyear.is_none() {
+            parsed.isoyear = parsed.year.take();
+        }
+        if parsed.weekday.is_none() {
+            parsed.weekday = Some(Weekday::Mon);
+        }
+    } else if parsed.year.is_none()
+        && parsed.isoyear.is_none()
+        && (parsed.month.is_some() || parsed.day.is_some() || parsed.ordinal.is_some())
+    {
+        parsed.year = Some(now.year());
+    }
+    let has_time = parsed.hour_mod_12.is_some() && parsed.minute.is_some();
+    let has_date = parsed.year.is_some()
+        || parsed.isoyear.is_some()
+        || parsed.month.is_some()
+        || parsed.day.is_some()
+        || parsed.ordinal.is_some()
+        || parsed.isoweek.is_some();
     let time = parsed.to_naive_time();
     let date = parsed.to_naive_date();
+    if has_time && time.is_err() {
+        return Err(("Time of day is out of range".to_string(), count));
+    }
+    if has_date && date.is_err() {
+        return Err(("Date is out of range or incomplete".to_string(), count));
+    }
+    if parsed.offset.is_some() && parsed.to_fixed_offset().is_err() {
+        return Err(("Offset is out of range".to_string(), count));
+    }
     if let Some(tz) = tz {
         match (time, date) {
             (Ok(time), Ok(date)) => tz
